@@ -16,6 +16,20 @@ import (
 type Ctx struct {
 	W *ir.World
 	R *check.Result
+
+	rootedSet map[*ssa.Function]bool
+}
+
+// Rooted reports whether f is reachable from any ABCI root (handlers, ante, blockers,
+// genesis, queries, invariants, migrations, message interface methods).
+func (c *Ctx) Rooted(f *ssa.Function) bool {
+	if c.rootedSet == nil {
+		c.rootedSet = map[*ssa.Function]bool{}
+		for g := range c.W.Reachable(c.W.RootSet(ir.RootKinds...)) {
+			c.rootedSet[g] = true
+		}
+	}
+	return c.rootedSet[f]
 }
 
 type Checker func(c *Ctx)
